@@ -34,7 +34,51 @@ def worker_init():
     simdev.install()
 
 
+def run_genpin(inp):
+    """the real BasePin.generate_pin with ledger.pin's random source scripted: successive 8-character draws"""
+    import ledger.pin as lp
+    chars = [c for d in inp["draws"] for c in bytes.fromhex(d).decode("latin-1")]
+
+    class _R:
+        def seed(self, *a):
+            pass
+
+        def choice(self, seq):
+            if not chars:
+                raise RuntimeError("random source exhausted")
+            c = chars.pop(0)
+            if c not in seq:
+                raise RuntimeError("scripted character not among the possible ones")
+            return c
+    saved = lp.random
+    lp.random = _R()
+    try:
+        return {"pin": lp.BasePin.generate_pin().hex()}
+    except RuntimeError as e:
+        return {"pin": None, "why": str(e)}
+    finally:
+        lp.random = saved
+
+
+def genpin_cases(tier, rng):
+    import string
+    out = []
+    alnum = string.ascii_letters + string.digits
+    for k in range(0, 7 if tier == "quick" else 40):
+        for rep in range(3 if tier == "quick" else 20):
+            draws = ["".join(rng.choice(string.digits) for _ in range(8)) for _ in range(k)]
+            good = "".join(rng.choice(alnum) for _ in range(7)) + rng.choice(string.ascii_letters)
+            good = "".join(rng.sample(good, 8))
+            draws.append(good)
+            draws.append("".join(rng.choice(alnum) for _ in range(8)))
+            out.append(Case("genpin", {"draws": [d.encode().hex() for d in draws]}, stream="genpin",
+                            crash="none", dev="n/a"))
+    return out
+
+
 def run_impl(op, inp):
+    if op == "genpin":
+        return run_genpin(inp)
     if op == "line.C10":
         from .. import mgr
         return mgr.run_line(inp)
@@ -107,6 +151,7 @@ def gen(tier, rng):
             for life in lives():
                 out.append(mk(f, d, DEV, life, plat))
     out += repair_cases(tier, rng)
+    out += genpin_cases(tier, rng)
     if tier == "thorough":
         # two-life histories: replay the first life in the model-free way (the implementation itself)
         from .. import pinrun
@@ -134,6 +179,8 @@ def tags(c, o):
 
 
 def nontrivial(c, o):
+    if c.op == "genpin":
+        return True
     if c.op == "line.C10":
         return isinstance(o, dict) and any(e.startswith("A") for e in o.get("events", []))
     return isinstance(o, dict) and o.get("sent") is not None
@@ -141,7 +188,7 @@ def nontrivial(c, o):
 
 def finding_signature(c, o):
     i = c.input
-    if c.op == "line.C10":
+    if c.op in ("line.C10", "genpin"):
         return None
     if i["dev"] == "accept" and (i["crash"] in ("afterAck", "afterOpen") or not i["open_ok"] or not i["write_ok"]):
         fault = i["crash"] if i["crash"] in ("afterAck", "afterOpen") else ("open-fails" if not i["open_ok"] else "write-fails")
